@@ -180,7 +180,14 @@ fn random_call(r: &mut Rng) -> Call {
         0..=4 => Call::Flag(r.usize_below(10), r.chance(1, 2)),
         5 => Call::FlagsWholesale((0..10).map(|_| r.chance(1, 2)).collect()),
         6 => Call::Prefix(if r.chance(1, 4) { None } else { Some(r.range(0x21, 0x7e) as u8) }),
-        7 => Call::Interval(if r.chance(1, 4) { None } else { Some(r.below(65536)) }),
+        7 => Call::Interval(if r.chance(1, 4) {
+            None
+        } else if r.chance(1, 6) {
+            // beyond the 16-bit millisecond field: must be refused when the handshake is encoded, never sent as another value
+            Some(*r.pick(&[65_536u64, 65_537, 70_000, 131_071, 131_072, 3_600_000, u32::MAX as u64 + 1]))
+        } else {
+            Some(r.below(65536))
+        }),
         8 => Call::IName(if r.chance(1, 4) { None } else { Some(name(r)) }),
         9 => Call::Admin(if r.chance(1, 4) {
             None
@@ -245,12 +252,23 @@ fn check_isi(c: &Corpus, b: &Builder, m: &Model, calls: &[Call], p: &mut Part) {
         let field = crate::corpus::debug_diff_field(&want, &got);
         p.violation(format!("C18/isi-field/{field}"), format!("Builder::isi() = {got}, configured options imply {want}"), replay.clone());
     }
-    if let Enc::Ok(bytes) = real_encode(&Packet::Isi(isi), m.compressed) {
-        let img = reference_image(c, m);
-        p.distinct(&img);
-        if bytes != img {
-            p.violation("C18/isi-image", format!("encoded ISI {} differs from the reference image {}", hex(&bytes), hex(&img)), replay);
-        }
+    let over = m.interval_ms.unwrap_or(0) > 65_535;
+    match real_encode(&Packet::Isi(isi), m.compressed) {
+        Enc::Ok(bytes) if over => p.violation(
+            "C18/out-of-range-interval-sent",
+            format!("an interval of {} ms does not fit the 16-bit field, yet the ISI is encoded (interval bytes {})", m.interval_ms.unwrap_or(0), hex(&bytes[10..12])),
+            replay,
+        ),
+        Enc::Ok(bytes) => {
+            let img = reference_image(c, m);
+            p.distinct(&img);
+            if bytes != img {
+                p.violation("C18/isi-image", format!("encoded ISI {} differs from the reference image {}", hex(&bytes), hex(&img)), replay);
+            }
+        },
+        Enc::Err(_) if over => p.distinct(&("refused", m.interval_ms)),
+        Enc::Err(e) => p.violation("C18/isi-not-encodable", format!("the configured ISI is refused by the encoder: {e}"), replay),
+        Enc::Panic(pn) => p.violation(format!("C18/isi-encode-panic/{}", panic_site(&pn)), format!("encoding the configured ISI panicked: {pn}"), replay),
     }
 }
 
@@ -268,17 +286,30 @@ fn check_wire(c: &Corpus, r: &mut Rng, asynchronous: bool, p: &mut Part) -> Resu
     let listener = TcpListener::bind("127.0.0.1:0").map_err(|e| e.to_string())?;
     let peer_udp = UdpSocket::bind("127.0.0.1:0").map_err(|e| e.to_string())?;
     let remote = if udp { peer_udp.local_addr() } else { listener.local_addr() }.map_err(|e| e.to_string())?;
-    let mut calls = vec![if udp { Call::Udp(r.chance(2, 3)) } else { Call::Tcp }];
+    // either the transport is chosen first and options follow, or options and other transport choices (relay
+    // included) come first and the transport that is finally connected is chosen last: later calls override
+    let final_proto = if udp { Call::Udp(r.chance(2, 3)) } else { Call::Tcp };
+    let proto_last = r.chance(1, 2);
+    let mut calls = if proto_last { vec![] } else { vec![final_proto.clone()] };
     for _ in 0..r.usize_below(12) {
         let cl = random_call(r);
-        if matches!(cl, Call::Tcp | Call::Udp(_) | Call::Relay) {
+        if !proto_last && matches!(cl, Call::Tcp | Call::Udp(_) | Call::Relay) {
             continue;
         }
         calls.push(cl);
     }
+    if proto_last {
+        calls.push(final_proto);
+    }
     let mut b = Builder::new().connect_timeout(Duration::from_secs(5));
     for cl in &calls {
         b = apply(b, &mut m, cl, remote, local);
+    }
+    if m.interval_ms.unwrap_or(0) > 65_535 {
+        // an unencodable interval makes the handshake fail (checked without sockets above); the wire check needs one that is sent
+        let cl = Call::Interval(Some(r.below(65536)));
+        b = apply(b, &mut m, &cl, remote, local);
+        calls.push(cl);
     }
     p.evaluations += 1;
     let label = format!("{}-{}-{}", if asynchronous { "async" } else { "blocking" }, if udp { "udp" } else { "tcp" }, mode_name(m.compressed));
